@@ -47,7 +47,7 @@ def apply_patch(copy_dir, patch):
 
 
 def facts_of(copy_dir, cfg='default'):
-    p, info = extract.facts_for(repo=copy_dir, cfg=cfg, target_dir=os.path.join(extract.BUILD, 'target-scratch-' + cfg),
+    p, info = extract.facts_for(repo=copy_dir, cfg=cfg, target_dir=os.path.join(extract.BUILD, 'target-scratch-' + cfg + os.environ.get('SCRATCH_TARGET_SUFFIX', '')),
                                 quiet=True)
     return mir.Facts(p), info
 
